@@ -73,7 +73,8 @@ package cluster
 //	M3 ConnPoolForCluster returns a host that is an intended member and healthy (ties in with C05), the
 //	   pool of that host's address and protocol, only after a CheckAndInit of that pool that returned
 //	   true; NewStream on it succeeds unless connects to the address are scripted to fail; no pool is
-//	   returned only if no member is healthy (multiplex: or every healthy member refuses connections).
+//	   returned only if no member is healthy (multiplex: or every healthy member refuses connections; with
+//	   more than maxHostsCounts = 3 healthy members the loop tries only 3 of them: not compared then).
 //	M4 map hygiene: a pool sits in the map family (global / per cluster) selected by cluster_pool_enable
 //	   under its own protocol and address; ShutdownConnectionPool removes the entry; a pool the manager
 //	   dropped was told to Shutdown.
@@ -86,12 +87,12 @@ package cluster
 //
 // Canonical state = (cluster exists, published list in order with tls_disable / metadata per host,
 // health bits, TLS generation, client-side TLS switch, connect-fail bits; per reachable pool: protocol,
-// address, TLS class, tls_disable of the host object it was created for; multiset of OPEN connections:
+// address, TLS class, tls_disable of the host object the pool works with; multiset of OPEN connections:
 // protocol, address, status of its pool (reachable / dropped:cause), TLS class, number of in-flight
 // requests; counter deviations). Two histories with the same canonical state have the same futures:
 // the manager reads only the cluster's snapshot (rebuilt from the published list by every host
 // operation), the health words, the TLS manager, the client-side switch and the pool maps (presence and
-// the pool's creation-time TLS hash); a pool reads only the host object it was created with (address,
+// the pool's creation-time TLS hash); a pool reads only its host object (the one it was created with; address,
 // tls_disable; the ClusterInfo is shared by all host generations), its own connections (interchangeable
 // within one class: the pools never look at identity beyond membership, idle ones are all clean - the
 // pool-level units check that) and the connection factory, which reads the fail bits; the round-robin
